@@ -185,8 +185,10 @@ def sign_and_overdraw(res, prop="C02"):
         if not np.all(np.isfinite(v)):
             i = int(np.nonzero(~np.isfinite(v))[0][0])
             raise Violation(prop, "nonfinite-flow/%s" % type(l.source).__name__, "link %s is %r at index %d" % (link_key(l), v[i], i))
-        if (v < 0).any():
-            i = int(np.nonzero(v < 0)[0][0])
+        # a residual computed as inflow - sum(outflows) may be negative in the last bits: that is rounding, not a reverse flow
+        thr = -1e-12 * max(1.0, float(np.max(np.abs(v))), float(sum(np.max(np.abs(np.asarray(k.vals, dtype=float))) for k in l.source.inlinks)) if isinstance(l.source, Junc) else 0.0)
+        if (v < (thr if isinstance(l.source, Junc) else 0.0)).any():
+            i = int(np.nonzero(v < (thr if isinstance(l.source, Junc) else 0.0))[0][0])
             raise Violation(prop, "negative-flow/%s" % type(l.source).__name__, "link %s = %r at index %d" % (link_key(l), v[i], i))
     for pop, c in all_comps(res):
         if isinstance(c, (Src, Junc, Snk)):
